@@ -81,11 +81,69 @@ def work(item, tally):
                       "weights": defects(n, ss[len(ss) // 2])[1]})
 
 
+def ref_weights(n, s):
+    fs = Fraction(s)
+    raw = [1 + Fraction(i) * (fs - 1) / (n - 1) for i in range(n)] if n > 1 else [Fraction(1)]
+    tot = sum(raw)
+    return [float(x / tot) for x in raw]
+
+
+def work_usage(a, tally):
+    """'used as sampling weights': every first-side list of a generator run is
+    drawn by a weighted draw without replacement whose weights are the
+    reference distribution for (number of rankable agents, skew)."""
+    from .. import genvectors, rngenv
+    from ..explore import Env
+    argv = genvectors.argv_of(a)
+    res = rngenv.run_generator(argv, Env([]), tag="c17")
+    tally.inc("evaluations")
+    tally.inc("usage_runs")
+    tally.inc("nontrivial")
+    if res["exc"] is not None:
+        tally.violation({"argv": argv, "fingerprint": "usage:exc:" + res["exc"]["fingerprint"],
+                         "what": "generator raised %r" % (res["exc"],)})
+        return
+    calls = [c for c in rngenv.LAST_NP.random.calls if c[0] == "choice" and not c[3]]
+    want = ref_weights(a["n2"], a["skew"])
+    bad = None
+    if len(calls) != a["n1"] * a.get("numinst", 1):
+        bad = ("usage:list-drawn-without-the-weights",
+               "%d weighted draws for %d first-side lists (modelled RNG calls %r)" % (
+                   len(calls), a["n1"], [c[:4] for c in rngenv.LAST_NP.random.calls]))
+    else:
+        for c in calls:
+            p = c[4]
+            if p is None or len(p) != a["n2"] or any(
+                    abs(x - y) > TOL * max(1.0, y) + 1e-15 for x, y in zip(p, want)):
+                bad = ("usage:wrong-weights", "draw used p=%r, reference %r" % (p, want))
+                break
+    if bad:
+        tally.violation({"argv": argv, "args": a, "fingerprint": bad[0], "what": bad[1]})
+
+
+def usage_vectors():
+    from .. import genvectors
+    out = []
+    for mp in ("ha", "hr", "spa", "sm"):
+        for n1 in (1, 2, 3):
+            for n2 in (1, 2, 3, 4):
+                if mp == "sm" and n2 != n1:
+                    continue
+                for pmin, pmax in ((1, 1), (1, n2), (n2, n2), (max(1, n2 - 1), n2)):
+                    for skew in (0.25, 1.0, 2.0, 5.0):
+                        a = genvectors.base(mp, n1, n2, 2 if mp == "spa" else None, pmin, pmax,
+                                            0.0, 0.0, mp in ("hr", "sm"), skew=skew)
+                        if a not in out:
+                            out.append(a)
+    return out
+
+
 def main(tier):
     t0 = time.time()
     N = 40 if tier == "quick" else 120
     ss = skews(tier)
     tally = pool.run(work, [(n, ss) for n in range(1, N + 1)], chunksize=1)
+    tally.merge(pool.run(work_usage, usage_vectors(), chunksize=20))
     c = tally.c
     coverage = {
         "evaluations": c.get("evaluations", 0),
@@ -95,6 +153,10 @@ def main(tier):
                 % (N, len(ss)),
         "samples": tally.samples,
         "exhaustive": True,
+        "usage_runs": c.get("usage_runs", 0),
+        "usage_rule": "real Generator(argv) under the owned RNG environment on a grid of "
+                      "(type, n1, n2, pmin, pmax, skew): every first-side list must be drawn by a "
+                      "weighted draw without replacement whose p equals the reference weights",
     }
     assumptions = ["finite grid of skews; the continuum of s is not covered",
                    "tolerance 1e-12 relative on weights, 1e-9 on derived laws"]
